@@ -1,13 +1,13 @@
 //! C06 — trader input splits exactly into curve amount, protocol share and LP share (DESIGN §3 C06).
 //! Engine A, graph mode, with the H2 step trace: per-step fee / protocol cut / growth formulas, totals against real
 //! balances and accounts, the emitted Traded event, and collect_protocol_fees paying exactly what is owed.
-use crate::ops::{Lim, Op, Part, Stepped};
+use crate::ops::{self, Lim, Op, Part, Stepped};
 use crate::oracles::{self, C06Stats};
 use crate::poolexplore::{self, PoolModel};
 use crate::report::{Ctx, Report};
 use crate::stdworlds::{self, Built};
-use crate::world::{Enc, StdWorld};
-use serde_json::Value;
+use crate::world::{self, Enc, StdWorld};
+use serde_json::{json, Value};
 use std::sync::Mutex;
 use svm::Ledger;
 
@@ -183,8 +183,76 @@ fn model<'a>(b: &'a Built, stats: &'a Mutex<C06Stats>) -> PoolModel<'a> {
     )
 }
 
+/// The trader's total (curve amount + fee, summed over the steps of one swap) at the edge of u64. A zero-fee pool with constant
+/// liquidity 2^62 from price 2^64 upwards, one initialised tick on the way (so that every single step fits u64): an exact-out
+/// b->a swap stopped by a limit P pays ceil(L (p_mid - p0) / 2^64) + ceil(L (P - p_mid) / 2^64) of token B — for P around
+/// 5 * 2^64 that is 2^64 -8 .. +8. Above u64::MAX the swap must be refused as overflowing; below it the trader (who holds
+/// 2^62) cannot pay it. Either way the instruction fails; a total that wraps to a small number makes it succeed.
+fn u64_total_case(v2: bool) -> Result<(u64, u64), String> {
+    use crate::refmodel::{bu, ceil_div};
+    use whirlpool::math::sqrt_price_from_tick_index;
+    let spec = world::StdSpec {
+        label: format!("c06-u64-total-{v2}"),
+        tick_spacing: 512,
+        fee_rate: 0,
+        protocol_fee_rate: 0,
+        sqrt_price: 1u128 << 64,
+        arrays: vec![(-1, Enc::Fixed), (0, Enc::Dynamic)],
+        positions: vec![(-512, 15872, false), (15872, 32256, true)],
+        t22_a: None,
+        t22_b: None,
+    };
+    let (l0, w) = world::build_std(&spec);
+    let liq: u128 = 1 << 62;
+    let mut l = l0;
+    for pos in 0..2u8 {
+        let st = ops::apply(&l, &w, &Op::Inc { pos, liq, v2: pos == 1 });
+        if !st.outcome.ok() {
+            return Err(format!("machinery: deposit of 2^62 into position {pos} failed: {}", st.outcome.short()));
+        }
+        l = st.ledger;
+    }
+    let (p0, pm) = (1u128 << 64, sqrt_price_from_tick_index(15872));
+    let two64 = bu(1) << 64u32;
+    let (mut over, mut under) = (0u64, 0u64);
+    for d in -8i128..=8 {
+        let p = (5u128 << 64).wrapping_add_signed(d * 2);
+        let total = ceil_div(&(bu(liq) * bu(pm - p0)), &two64) + ceil_div(&(bu(liq) * bu(p - pm)), &two64);
+        if total >= two64 {
+            over += 1;
+        } else {
+            under += 1;
+        }
+        let st = ops::apply(&l, &w, &Op::Swap { a_to_b: false, exact_in: false, amount: 1 << 63, lim: Lim::Price(p), v2 });
+        if st.outcome.ok() {
+            let paid = world::balance(&l, &w.trader.acct_b) - world::balance(&st.ledger, &w.trader.acct_b);
+            let got = world::balance(&st.ledger, &w.trader.acct_a) - world::balance(&l, &w.trader.acct_a);
+            return Err(format!(
+                "exact-out swap (zero-fee pool, liquidity 2^62, limit {p}) succeeded: the trader received {got} of token A and paid {paid} of token B, but the curve amount over its two steps is {total} (u64::MAX = {})",
+                u64::MAX
+            ));
+        }
+    }
+    Ok((over, under))
+}
+
 pub fn run(ctx: &Ctx) -> Report {
     let mut r = Report::new("C06", "model_checking");
+    let mut totals = (0u64, 0u64);
+    for v2 in [false, true] {
+        match u64_total_case(v2) {
+            Ok((o, u)) => {
+                totals.0 += o;
+                totals.1 += u;
+            }
+            Err(e) => {
+                r.violation(format!("u64_total/{v2}"), e, json!({"kind": "u64_total", "v2": v2}));
+                return r;
+            }
+        }
+    }
+    r.guard("swaps_whose_total_input_exceeds_u64", totals.0);
+    r.guard("swaps_whose_total_input_is_just_below_2_pow_64", totals.1);
     let ws = worlds(!ctx.tier.is_quick());
     let share = ctx.budget_s * 0.95 / ws.len() as f64;
     let stats = Mutex::new(C06Stats::default());
@@ -214,6 +282,9 @@ pub fn run(ctx: &Ctx) -> Report {
 }
 
 pub fn replay(case: &Value) -> Result<(), String> {
+    if case["kind"].as_str() == Some("u64_total") {
+        return u64_total_case(case["v2"].as_bool().ok_or("v2")?).map(|_| ());
+    }
     let ws = worlds(true);
     let name = case["world"].as_str().ok_or("world")?;
     let b = ws.iter().find(|b| b.name == name).ok_or("unknown world")?;
